@@ -790,11 +790,15 @@ pub(super) fn bl(
         // get operands
         let dst = operand_load(block, &instruction.operands()[0], 64)?;
 
+        // The target is read before the link register is written (`blr x30`).
+        let target = temp0(instruction, 64);
+        block.assign(target.clone(), dst);
+
         block.assign(
             scalar!("x30"),
             il::expr_const(instruction.address().wrapping_add(4), 64),
         );
-        block.branch(dst);
+        block.branch(il::Expression::Scalar(target));
 
         block.index()
     };
